@@ -60,6 +60,7 @@ mod wake_thread;
 mod scheduler_future;
 mod queue_resumer;
 mod try_sync_error;
+#[cfg(desync_verif)] pub mod verif_hooks;
 
 pub use self::desync_scheduler::*;
 pub use self::job_queue::{JobQueue};
